@@ -4,6 +4,7 @@
 mod corpus;
 mod emit;
 mod genmon;
+mod senum;
 
 use serde_json::json;
 use std::path::{Path, PathBuf};
